@@ -552,7 +552,7 @@ func runC13(c *Ctx, _ []string) {
 			for i := range lit {
 				lit[i] = byte(1 + rr.Intn(255))
 			}
-			blockA := append(lit, make([]byte, 8192)...)         // literal run then zeros
+			blockA := append(lit, make([]byte, 8192)...)                       // literal run then zeros
 			blockB := append(bytes.Repeat([]byte{7}, L), lit[:min(L, 300)]...) // run then literals
 			for bi, block := range [][]byte{blockA, blockB} {
 				c.Count("evaluations", 1)
